@@ -8,7 +8,12 @@ namespace {
 struct Exec { int round, job, rank; };
 struct Shared { std::vector<Exec> log; std::map<int, std::map<int, std::map<int,int> > > maps; /* rank -> round -> job -> worker */ std::map<int,int> rounds_done; } *SH = 0;
 
-struct Job { int id, complexity, round; void run() { vmpi::yield_point("job", id); Exec e = { round, id, vmpi::my_rank() }; SH->log.push_back(e); vmpi::note(0x6a6f62ull * 1000 + round * 100 + id); } };
+// "ids" mode of the dedicated-master harness: the job list is given explicitly and is neither contiguous nor ascending (external id of job j
+// is 3*(J-1-j)+2); everything the oracle sees is decoded back to j, an id outside the list decodes to a negative number
+int g_ids = 0, g_J = 0;
+int ext_id(int j) { return g_ids ? 3 * (g_J - 1 - j) + 2 : j; }
+int dec_id(int id) { if (!g_ids) return id; if (id < 2 || (id - 2) % 3 != 0 || (id - 2) / 3 >= g_J) return -1000 - id; return g_J - 1 - (id - 2) / 3; }
+struct Job { int id, complexity, round; void run() { vmpi::yield_point("job", id); Exec e = { round, dec_id(id), vmpi::my_rank() }; SH->log.push_back(e); vmpi::note(0x6a6f62ull * 1000 + round * 100 + id); } };
 
 std::string check_rounds(int P, int J, int R, bool need_maps, std::string& sig) {
     std::ostringstream s;
@@ -32,7 +37,7 @@ std::string check_rounds(int P, int J, int R, bool need_maps, std::string& sig) 
 VxHarness make_skel(const VxConfig& c) {
     int P = c.p.at("P"), J = c.p.at("J"), R = c.p.at("R"), distinct = c.p.at("cx");
     VxHarness h; h.mpi.P = P; h.mpi.rendezvous = c.p.at("rdv"); h.mpi.delayed = c.p.count("delay") && c.p.at("delay");
-    h.reset = []() { static Shared s; s = Shared(); SH = &s; };
+    h.reset = []() { static Shared s; s = Shared(); SH = &s; g_ids = 0; g_J = 0; };
     h.body = [=](int rank) {
         boost::mpi::communicator comm;
         for (int r = 0; r < R; ++r) {
@@ -52,11 +57,16 @@ VxHarness make_skel(const VxConfig& c) {
 VxHarness make_nomaster(const VxConfig& c) {
     int P = c.p.at("P"), J = c.p.at("J"), R = c.p.at("R");
     VxHarness h; h.mpi.P = P; h.mpi.rendezvous = c.p.at("rdv"); h.mpi.delayed = c.p.count("delay") && c.p.at("delay");
-    h.reset = []() { static Shared s; s = Shared(); SH = &s; };
+    int ids = c.p.count("ids") ? (int)c.p.at("ids") : 0;
+    h.reset = [=]() { static Shared s; s = Shared(); SH = &s; g_ids = ids; g_J = J; };
     h.body = [=](int rank) {
         boost::mpi::communicator world; int ROOT = 0;
         for (int r = 0; r < R; ++r) {
-            if (rank == ROOT) { pMPI::MPIMaster master(world, (size_t)J, false); for (; !master.is_finished();) { master.order(); master.check_workers(); } SH->maps[0][r] = std::map<int,int>(master.DispatchMap.begin(), master.DispatchMap.end()); }
+            if (rank == ROOT) {
+                std::vector<pMPI::JobId> jl; for (int j = 0; j < J; ++j) jl.push_back(ext_id(j)); std::vector<pMPI::WorkerId> pool; for (int p = 1; p < P; ++p) pool.push_back(p);
+                std::unique_ptr<pMPI::MPIMaster> mp(ids == 0 ? new pMPI::MPIMaster(world, (size_t)J, false) : ids == 1 ? new pMPI::MPIMaster(world, jl, false) : new pMPI::MPIMaster(world, pool, jl));
+                pMPI::MPIMaster& master = *mp; for (; !master.is_finished();) { master.order(); master.check_workers(); }
+                std::map<int,int> m; for (auto& kv : master.DispatchMap) m[dec_id(kv.first)] = kv.second; SH->maps[0][r] = m; if (m.size() != master.DispatchMap.size()) SH->maps[0][r][-1] = -1; }
             else { pMPI::MPIWorker worker(world, ROOT); for (; !worker.is_finished();) { worker.receive_order(); if (worker.is_working()) { Job jb; jb.id = worker.current_job(); jb.round = r; jb.complexity = 1; jb.run(); worker.report_job_done(); } } }
             world.barrier(); SH->rounds_done[rank] = r + 1;
         }
@@ -79,7 +89,9 @@ int run_c16(const Args& a, Recorder& rec) {
     for (int P = 1; P <= Pmax; ++P) for (int J = 0; J <= Jmax; ++J) for (int R = 1; R <= ((P <= 2) ? 3 : 2); ++R) for (int rdv = 0; rdv < 2; ++rdv) {
         if (R == 3 && !T && J > 2) continue;
         for (int cx = 0; cx < 3; ++cx) { if (cx == 1 && J < 2) continue; if (cx == 2 && (J < 1 || R > 2 || (rdv && !T))) continue; VxConfig c; c.harness = "skel"; c.p["P"] = P; c.p["J"] = J; c.p["R"] = R; c.p["rdv"] = rdv; c.p["cx"] = cx; cfgs.push_back(c); }
-        if (P >= 2) { VxConfig c; c.harness = "nomaster"; c.p["P"] = P; c.p["J"] = J; c.p["R"] = R; c.p["rdv"] = rdv; cfgs.push_back(c); }
+        if (P >= 2) { VxConfig c; c.harness = "nomaster"; c.p["P"] = P; c.p["J"] = J; c.p["R"] = R; c.p["rdv"] = rdv; cfgs.push_back(c);
+            // the other two constructors: explicit (non-contiguous, descending) job id list; explicit worker pool + job id list
+            if (J >= 1 && R == 1 && (!rdv || T)) for (int ids = 1; ids <= 2; ++ids) { VxConfig d = c; d.p["ids"] = ids; cfgs.push_back(d); } }
     }
     // cheapest first, so that a deadline cuts the tail
     std::stable_sort(cfgs.begin(), cfgs.end(), [](const VxConfig& x, const VxConfig& y) { long a1 = x.p.at("P") * 10 + x.p.at("J") * 3 + x.p.at("R") * 5, a2 = y.p.at("P") * 10 + y.p.at("J") * 3 + y.p.at("R") * 5; return a1 < a2; });
